@@ -163,6 +163,9 @@ def core_shapes():
         [n_eq1, k, E, kw_ if False else acall(["k"], "<func>rhs", [V("<t>"), V(Y)]), w, ymv],
     ] + [[g, assign(M, S(V(M), C(5))), E, ninc] for g in a if g["op"] == "if"] + [   # every guard form of the profile
         [assign(M, ["pow", ["pow", V(N), C(2)], C(3)]), ninc],            # a power as the base of a power
+        # user-type values inside a loop NEST: last use of k inside two loops, self-update of w inside two loops
+        [k, w, assign("w", S(V("w"), P(V("j"), V("k"))), loops=[["i", C(0), C(2)], ["j", C(0), C(2)]]), ymv, yld],
+        [k, assign(Y, S(V(Y), V("k")), loops=[["i", C(0), C(3)], ["j", C(0), C(2)]]), yld, ninc],
         # loop nests: the inner bound uses the outer index; a loop bound held in a persistent variable
         [assign("arr", ["call", V("<builtin>array"), [C(4)], []]), assign("arr", C(0), sub=[V("i")], loops=[["i", C(0), C(4)]]),
          assign("arr", S(["sub", V("arr"), [V("j")]], V("i"), P(C(2), V("j")), C(1)), sub=[V("j")],
